@@ -30,3 +30,11 @@ Lemma active_set_rounding_witness :
 Proof.
   split; [exact rw_rnd_small|]. repeat split; vm_compute; reflexivity.
 Qed.
+
+(* the loop is left through its termination test on this input (flag true): the hypothesis of the exit certificate
+   (Proofs/NnlsProofsAsetCert.v) is reachable *)
+Lemma active_set_run_witness :
+  active_set_run Qops (gauss_solve Qops) (fun x => x) rw_Utm rw_UtU rw_tol (Some rw_x0) 100 = Some ([0; 1 # 4]%Q, true) /\
+  active_set_run Qops (gauss_solve Qops) (fun x => x) rw_Utm rw_UtU rw_tol None 1 = Some ([0; 1 # 4]%Q, true) /\
+  active_set_run Qops (gauss_solve Qops) (fun x => x) [3; 3]%Q [[2; 1]; [1; 2]]%Q rw_tol None 1 = Some ([3 # 2; 0]%Q, false).
+Proof. repeat split; vm_compute; reflexivity. Qed.
